@@ -344,11 +344,17 @@ int reb_simulation_remove_particle(struct reb_simulation* const r, int index, in
 		reb_simulation_error(r, "Removing particles not supported when calculating MEGNO.  Did not remove particle.");
 		return 0;
 	}
-    if (r->integrator == REB_INTEGRATOR_MERCURIUS){
+    if (r->integrator == REB_INTEGRATOR_MERCURIUS || r->integrator == REB_INTEGRATOR_TRACE){
         keep_sorted = 1; // Force keep_sorted for hybrid integrator
+    }
+    if (keep_sorted && r->tree_root){
+        reb_simulation_error(r, "REBOUND cannot remove a particle a tree and keep the particles sorted. Did not remove particle.");
+        return 0;
+    }
+    if (r->integrator == REB_INTEGRATOR_MERCURIUS){
         struct reb_integrator_mercurius* rim = &(r->ri_mercurius);
         if (rim->N_allocated_dcrit>0 && index<(int)rim->N_allocated_dcrit){
-            for (unsigned int i=0;i<r->N-1;i++){
+            for (unsigned int i=0;i<r->N-1 && i+1<rim->N_allocated_dcrit;i++){ // dcrit might be shorter than N if particles were added
                 if ((int)i>=index){
                     rim->dcrit[i] = rim->dcrit[i+1];
                 }
@@ -376,7 +382,6 @@ int reb_simulation_remove_particle(struct reb_simulation* const r, int index, in
     }
 
     if (r->integrator == REB_INTEGRATOR_TRACE){
-        keep_sorted = 1; // Force keepSorted for hybrid integrator
         struct reb_integrator_trace* ri_trace = &(r->ri_trace);
         reb_integrator_bs_reset(r);
         if (r->ri_trace.mode==1 || r->ri_trace.mode==3){
@@ -410,7 +415,7 @@ int reb_simulation_remove_particle(struct reb_simulation* const r, int index, in
         }
     }
 
-	if (r->N==1){
+	if (r->N==1 && r->tree_root==NULL){
 	    r->N = 0;
         if(index<r->N_active){
             r->N_active--;
@@ -422,10 +427,6 @@ int reb_simulation_remove_particle(struct reb_simulation* const r, int index, in
 		return 1;
 	}
 	if(keep_sorted){
-        if (r->tree_root){
-		    reb_simulation_error(r, "REBOUND cannot remove a particle a tree and keep the particles sorted. Did not remove particle.");
-		    return 0;
-        }
 	    r->N--;
         if(r->free_particle_ap){
             r->free_particle_ap(&r->particles[index]);
